@@ -101,10 +101,64 @@ func gGuard(c *Ctx, rule string) {
 		}
 		// positions where X.Expression.Value is emitted (as a direct emitter argument) in this function
 		emitted := map[string][]ast.Node{}
+		// local closures that write an expression they are handed: name := func(…, p parser.Expression, …) { … emit(p.Value) … }
+		exprClosures := map[types.Object]map[int]bool{}
+		ast.Inspect(gf.Decl.Body, func(n ast.Node) bool {
+			as, ok := n.(*ast.AssignStmt)
+			if !ok || len(as.Lhs) != 1 || len(as.Rhs) != 1 {
+				return true
+			}
+			id, ok1 := as.Lhs[0].(*ast.Ident)
+			lit, ok2 := ast.Unparen(as.Rhs[0]).(*ast.FuncLit)
+			if !ok1 || !ok2 {
+				return true
+			}
+			idx := map[types.Object]int{}
+			k := 0
+			for _, prm := range lit.Type.Params.List {
+				for _, nm := range prm.Names {
+					idx[info.Defs[nm]] = k
+					k++
+				}
+			}
+			ast.Inspect(lit.Body, func(m ast.Node) bool {
+				call, ok := m.(*ast.CallExpr)
+				if !ok || g.emitterKind(call) == "" {
+					return true
+				}
+				for _, a := range call.Args {
+					ast.Inspect(a, func(q ast.Node) bool {
+						if se, ok := q.(*ast.SelectorExpr); ok && se.Sel.Name == "Value" {
+							if pid, ok := ast.Unparen(se.X).(*ast.Ident); ok {
+								if i, isParam := idx[info.ObjectOf(pid)]; isParam {
+									if exprClosures[info.ObjectOf(id)] == nil {
+										exprClosures[info.ObjectOf(id)] = map[int]bool{}
+									}
+									exprClosures[info.ObjectOf(id)][i] = true
+								}
+							}
+						}
+						return true
+					})
+				}
+				return true
+			})
+			return true
+		})
 		ast.Inspect(gf.Decl.Body, func(n ast.Node) bool {
 			call, ok := n.(*ast.CallExpr)
 			if !ok {
 				return true
+			}
+			if fid, ok := ast.Unparen(call.Fun).(*ast.Ident); ok {
+				if set := exprClosures[info.ObjectOf(fid)]; set != nil {
+					for i, a := range call.Args {
+						if inner, ok := ast.Unparen(a).(*ast.SelectorExpr); ok && inner.Sel.Name == "Expression" && set[i] {
+							emitted[types.ExprString(inner.X)] = append(emitted[types.ExprString(inner.X)], call)
+						}
+					}
+					return true
+				}
 			}
 			if g.emitterKind(call) == "" {
 				// a "write this expression" wrapper of the generator, given X.Expression
@@ -572,7 +626,7 @@ func nextSiblingPropagation(c *Ctx, rule string) {
 		}
 	}
 	c.count("next_sibling_forwarding_writers", nfn)
-	c.floor(rule, 4)
+	c.floor(rule, 2) // (call sites; several branches may share one local helper)
 }
 
 // boolAttributePresence: C02.R8 — in the spread-attribute renderer, an attribute whose value carries a boolean is written
